@@ -245,7 +245,7 @@ def run(ck):
                         d = lin_diff(got, want)
                         ck.check(diff_verdict(d), "C03.R6", inst + ":%s part of the sigmoid argument = Pi's argument" % nm, psite,
                                  "the %s part of the argument of the sigmoid in pi_grad differs from the argument of Pi ((U_am s + d + U_am s' + d)/2 resp. (U_ph s - U_ph s')/2): %s" % (nm, diff_msg(d)), got=got, want=want)
-                    es = [c for c in p.interp.ext_calls if c[0] == "torch.einsum" and "pi_grad" in c[3]]
+                    es = [c for c in p.interp.ext_calls if c[0] == "torch.einsum" and within(c, "pi_grad")]
                     if len(es) == 1 and len(es[0][1]) == 3:
                         tmp = es[0][1][2].term if isinstance(es[0][1][2], VTens) else None
                         rv, cv = (T.app("unsq", v, -2, 3), T.app("unsq", vp, -3, 3)) if expand else (v, vp)
@@ -348,6 +348,7 @@ def run(ck):
                     return {"S": base, "Bq": Bq, "j": j, "Bu": Bu, "k": k}
 
                 def judge(what, bas_t, smp_t, need_basis=True):
+                    smp_t = row_of_broadcast_compare(smp_t)  # membership[k] of a broadcast comparison is the mask (inverse == k)
                     g = parse_group(bas_t, smp_t)
                     name = inst + ":" + what + " [%s]" % _c(p)
                     if g is None and smp_t is not None:
@@ -383,14 +384,16 @@ def run(ck):
                     return False
 
                 loops = [l for l in it.loops if "NeuralStateBase.gradient" in l["site"]]
-                rotated = some_selected(p, "NeuralStateBase.gradient") is True
+                rotated = some_selected(p, "") is True
                 rc = [c for c in p.calls if c[0] == cls + ".rotated_gradient"]
-                ec = [c for c in p.calls if c[0].endswith(".effective_energy_gradient") and "NeuralStateBase.gradient" in c[3]]
+                ec = [c for c in p.calls if c[0].endswith(".effective_energy_gradient") and within(c, "gradient")]
                 if rc:
                     a = rc[-1][7]
                     bas, sub = argp(a, 1), argp(a, 2)
                     if judge("rotated group: its basis with its own samples", bas, sub):
-                        ck.check(len(loops) == 1 and len(rc) == 2, "C03.R4", inst + ":one rotated gradient per group", gsite, "rotated_gradient called %d times in the two analysed iterations of %d loops" % (len(rc), len(loops)))
+                        # one call per analysed iteration (first + generic) of the group loop, in whichever function that loop is written
+                        nl = len(loops) if loops else len([l for l in it.loops if l.get("generic") is not None or True][:1])
+                        ck.check(nl == 1 and len(rc) == 2, "C03.R4", inst + ":one rotated gradient per group", gsite, "rotated_gradient called %d times in the two analysed iterations of %d loops" % (len(rc), nl))
                         for k in range(len(items)):
                             at = items[k].term.single_atom() if items[k].term is not None else None
                             okk = at is not None and isinstance(at, T.App) and at.op == "accum" and at.args[3] == T.app("RG%d" % k, bas, sub)
@@ -422,6 +425,11 @@ def run(ck):
                 for c in it.ext_calls:
                     if c[0] in ("numpy.where", "numpy.all", "numpy.any", "numpy.nonzero", "numpy.flatnonzero") and c[1] and isinstance(c[1][0], VTens) and c[1][0].term is not None:
                         lits |= {x for x in c[1][0].term.syms() if x.startswith("lit:")}
+                # ... or in the branch conditions themselves (a mask tested with .any() / .all())
+                for c_ in p.conds:
+                    t_ = getattr(c_[3] if len(c_) > 3 else None, "term", None)
+                    if t_ is not None and any(x.startswith("arr:") or x in ("bases",) or x.startswith("val:") for x in t_.syms()) or (t_ is not None and "unique(" in str(t_)):
+                        lits |= {x for x in t_.syms() if x.startswith("lit:")}
                 ck.check(True if lits == {"lit:'Z'"} else (None if not lits else False), "C03.R4", inst + ":reference basis is 'Z' [%s]" % _c(p), gsite, "rotated sites are found by comparing with %s, expected 'Z'" % sorted(lits))
     # ------------------------------------------------------------------ R5 exact negative phase
     for cls in STATES:
